@@ -109,6 +109,11 @@ func runBatch(obs []*Oblig, timeoutS int, all bool) {
 			o.Res = SolverResult{Solver: "engine", Result: "unsat"}
 			continue
 		}
+		if hypMatch(o) {
+			o.Res = SolverResult{Solver: "engine:hypothesis", Result: "unsat"}
+			o.Trivial = true
+			continue
+		}
 		sc := prepare(o)
 		o.SMTSize = len(sc.Text)
 		if j, ok := byText[sc.Text]; ok {
@@ -224,3 +229,39 @@ func Discharge(obs []*Oblig, timeoutS int, all bool) []*ObResult {
 }
 
 func fmtDur(d time.Duration) string { return fmt.Sprintf("%.1fs", d.Seconds()) }
+
+// hypMatch: the goal (or each of its conjuncts) is literally one of the hypotheses.
+func hypMatch(o *Oblig) bool {
+	if o.Soft || len(o.Lemmas) > 0 {
+		return false
+	}
+	hs := map[*Term]bool{}
+	var add func(t *Term)
+	add = func(t *Term) {
+		hs[t] = true
+		if t.op == "and" {
+			for _, a := range t.args {
+				add(a)
+			}
+		}
+	}
+	for _, h := range o.Hyps {
+		add(h)
+	}
+	var ok func(t *Term) bool
+	ok = func(t *Term) bool {
+		if hs[t] {
+			return true
+		}
+		if t.op == "and" {
+			for _, a := range t.args {
+				if !ok(a) {
+					return false
+				}
+			}
+			return true
+		}
+		return false
+	}
+	return ok(o.Goal)
+}
